@@ -199,15 +199,15 @@ func c17R1Auth(c *Ctx) {
 		ifelse(okGuard, "GetBody() is called only on the edge GetBody != nil (a one-shot body yields an error, not a nil-call panic)", "req.GetBody may be called while nil"))
 	res := ErrFlow(gb, ErrFlowOpts{})
 	okInst := res.OK
-	for _, s := range installs {
-		if e := ErrOf(gb); e != nil {
-			nilE, _, _ := NilTests(RW, Aliases(e))
-			if !MustPass(s, newCut().Edges(nilE...)) {
-				okInst = false
-			}
+	if e := ErrOf(gb); e != nil {
+		nilE, _, _ := NilTests(RW, Aliases(e))
+		if len(nilE) == 0 || c13SuccessEscapes(RW, RW.Blocks[0], 0, newCut().Edges(bodyNil...).Edges(eqNoBody...).Edges(nilE...), nil) != nil {
+			okInst = false
 		}
+	} else {
+		okInst = false
 	}
-	c.Check(RH, rn+"|GetBody-error-returned", gb.Pos(), okInst, ifelse(okInst, "a failing GetBody() makes the helper fail; its result is installed only on success", "a failing GetBody() is not reported, or its result is installed regardless: "+res.Detail))
+	c.Check(RH, rn+"|GetBody-error-returned", gb.Pos(), okInst, ifelse(okInst, "a failing GetBody() makes the helper fail: nil is returned only over GetBody()'s nil-error edge", "the helper can report success although GetBody() failed: "+res.Detail))
 }
 
 // ---------- RoundTrip ----------
@@ -276,10 +276,8 @@ func c17RoundTrip(c *Ctx) {
 			continue
 		}
 		nilE, nonNilE, _ := NilTests(RT, Aliases(e))
-		for _, s := range installs {
-			if !MustPass(s, newCut().Edges(nilE...)) {
-				okSucc = false
-			}
+		if !MustPassBetween(Si, Si, newCut().Edges(bodyNil...).Edges(nilE...)) {
+			okSucc = false
 		}
 		for _, ne := range nonNilE { // after a failed GetBody no further round trip
 			if reach(ne.To, 0, Si, nil) {
@@ -293,7 +291,7 @@ func c17RoundTrip(c *Ctx) {
 			okGuard = false
 		}
 	}
-	c.Check(R1, rn+"|rewind-failure-stops-retry", S.Pos(), okSucc, ifelse(okSucc, "the GetBody() result is installed only on its nil-error edge and a failed GetBody() leads to no further round trip", "a failed GetBody() does not stop the retry (the request would go out with a nil or stale body)"))
+	c.Check(R1, rn+"|rewind-failure-stops-retry", S.Pos(), okSucc, ifelse(okSucc, "the next round trip is reached only over GetBody()'s nil-error edge (or with no body); a failed GetBody() leads to no further round trip", "a failed GetBody() does not stop the retry (the request would go out with a nil or stale body)"))
 	c.Check(R1, rn+"|GetBody-called-only-if-set", S.Pos(), okGuard, ifelse(okGuard, "GetBody() is called only on the edge GetBody != nil", "req.GetBody may be called while nil (one-shot body): panic instead of returning the last response"))
 
 	// --- R2: policy consulted, counter, gates
